@@ -139,8 +139,9 @@ static void redeclare_domain(Rng& r, System& sys, const IntervalVector& root) {
 
 // ---------------------------------------------------------------------------------------------------
 // C18 (second half): every interruption point, save, reload, resume, chains
-struct Config { int ctc_kind; bool newton; int bsc_kind; int buf_kind; Vector eps_min, eps_max; Config() : eps_min(1), eps_max(1) {} };
+struct Config { int ctc_kind; bool newton; int bsc_kind; int buf_kind; int btest = -1; bool byname = false; Vector eps_min, eps_max; Config() : eps_min(1), eps_max(1) {} };
 
+static string FROM_FILE;    // (resume through the file name: Solver::solve(const char*))
 // one run with fresh components; `from` = NULL: start from the initial box, else resume from the data
 struct Run {
   CtcHC4* hc4; CtcAcid* acid; CtcCompo* compo; CtcNewton* newton; CtcCompo* withnewton; LogCtc* lctc; Bsc* bsc;
@@ -156,9 +157,10 @@ struct Run {
     lbuf = new LogBuffer(c.buf_kind == 0 ? (CellBuffer&)stack : (CellBuffer&)list);
     s = new Solver(sys, *lctc, *bsc, *lbuf, c.eps_min, c.eps_max);
     s->cell_limit = cell_limit; s->time_limit = time_limit; s->trace = 0;
+    if (c.btest >= 0) s->boundary_test = (Solver::boundary_test_strength)c.btest;
     RNG::srand(1);
     LOG = &log;
-    st = from ? s->solve(*from) : s->solve(root);
+    st = from ? (c.byname && !FROM_FILE.empty() ? s->solve(FROM_FILE.c_str()) : s->solve(*from)) : s->solve(root);
     LOG = 0;
     check_round_up("solver");
   }
@@ -173,6 +175,7 @@ static void wl_resume(Rng& r, long count, bool full, const string& file) {
       System& sys = *P.sys; IntervalVector root = sys.box; redeclare_domain(r, sys, root);
       Config c; double e = r.coin() ? 0.125 : 0.03125;
       c.eps_min = Vector(P.n, e); c.eps_max = Vector(P.n, r.coin(80) ? POS_INFINITY : 1.0);
+      if (r.coin(30)) { static const int BT[] = {Solver::ALL_TRUE, Solver::FULL_RANK, Solver::ALL_FALSE}; c.btest = BT[r.below(3)]; } c.byname = r.coin(40); FROM_FILE = file;
       c.ctc_kind = r.coin(70) ? 0 : 1; c.newton = (P.m == P.n && P.k == 0 && r.coin(40)); c.bsc_kind = r.below(3); c.buf_kind = r.coin(70) ? 0 : 1;
       // the uninterrupted run: number of cells N
       long maxN = full ? 600 : 160;
@@ -259,6 +262,9 @@ int main(int argc, char** argv) {
         CellStack stack; CellList list; CellBuffer* inner = r.coin(70) ? (CellBuffer*)&stack : (CellBuffer*)&list;
         LogBuffer lbuf(*inner);
         Solver s(sys, lctc, *bsc, lbuf, eps_min, eps_max);
+        // non-default settings: the test applied to boundary boxes, parameters forced by the user (under-constrained systems)
+        if (r.coin(35)) { static const Solver::boundary_test_strength BT[] = {Solver::ALL_TRUE, Solver::FULL_RANK, Solver::ALL_FALSE}; s.boundary_test = BT[r.below(3)]; }
+        if (P.m > 0 && P.m < P.n && r.coin(35)) { BitSet pb = BitSet::empty(P.n); int np = r.range(1, P.n - P.m); while ((int)pb.size() < np) pb.add(r.below(P.n)); s.set_params(VarSet(P.n, pb, false)); }
         if (r.coin(35)) s.cell_limit = r.range(1, 60);
         else if (P.m < P.n) s.cell_limit = r.range(100, 400);   // pavings of sets: keep the log small
         else s.cell_limit = 3000;
@@ -273,7 +279,8 @@ int main(int argc, char** argv) {
       // ---- the default solver must deliver a paving and a status (no LP library in this build) ----
       if (r.coin(50)) {
         try {
-          DefaultSolver ds(sys, eps_min, POS_INFINITY, r.coin(), 1.0);
+          bool scalar_eps = r.coin(40); double e0 = eps_min[0]; if (scalar_eps) for (int i = 0; i < P.n; i++) eps_min[i] = e0;
+          DefaultSolver ds0(sys, e0, POS_INFINITY, r.coin(), 1.0); DefaultSolver ds1(sys, eps_min, POS_INFINITY, r.coin(), 1.0); DefaultSolver& ds = scalar_eps ? ds0 : ds1;
           ds.time_limit = 20; ds.cell_limit = P.m < P.n ? 300 : 2000;
           RUN_ID++; DISCARDS.clear(); REPLACED.clear();
           if (getenv("H_SOLVER_TRACE")) { std::cerr << "RUN " << RUN_ID << " default solver root=" << root << " declared=" << sys.box << " eps_min=" << eps_min << "\n" << sys << std::endl; }
